@@ -173,8 +173,174 @@ fn viol(run: &mut InfRun, tag: &'static str, sig: &str, msg: String) {
     }
 }
 
-/// Drive one inflate session over `data` following `sched`.
+
+pub struct CallOut {
+    pub rc: c_int,
+    pub din_ptr: isize,
+    pub dout_ptr: isize,
+    pub avail_in: u32,
+    pub avail_out: u32,
+    pub total_in: u64,
+    pub total_out: u64,
+    pub adler: u64,
+    pub data_type: c_int,
+}
+
+pub const RC_PANIC: c_int = -100;
+
+/// what the interpreter needs from an inflate implementation
+pub trait InfBack: Sized {
+    const LABEL: &'static str;
+    fn init(wbits: c_int) -> Result<Self, c_int>;
+    fn call(&mut self, ip: *const u8, ic: usize, op: *mut u8, oc: usize, flush: c_int) -> CallOut;
+    fn set_dict(&mut self, d: *const u8, n: usize) -> c_int;
+    fn get_header(&mut self, _h: *mut gz_header) -> c_int {
+        Z_STREAM_ERROR
+    }
+    fn totals(&self) -> (u64, u64, u64);
+    fn msg(&self) -> Option<String>;
+    fn end(self) -> c_int;
+}
+
+pub struct CApi<A: Z> {
+    pub strm: Box<z_stream>,
+    _a: core::marker::PhantomData<A>,
+}
+
+impl<A: Z> InfBack for CApi<A> {
+    const LABEL: &'static str = A::NAME;
+    fn init(wbits: c_int) -> Result<Self, c_int> {
+        let mut strm = Box::new(zs());
+        let rc = unsafe { A::inflateInit2(&mut *strm, wbits) };
+        if rc != Z_OK {
+            return Err(rc);
+        }
+        Ok(CApi { strm, _a: core::marker::PhantomData })
+    }
+    fn call(&mut self, ip: *const u8, ic: usize, op: *mut u8, oc: usize, flush: c_int) -> CallOut {
+        let s = &mut *self.strm;
+        s.next_in = ip;
+        s.avail_in = ic as u32;
+        s.next_out = op;
+        s.avail_out = oc as u32;
+        let rc = unsafe { A::inflate(s, flush) };
+        CallOut {
+            rc,
+            din_ptr: (s.next_in as isize).wrapping_sub(ip as isize),
+            dout_ptr: (s.next_out as isize).wrapping_sub(op as isize),
+            avail_in: s.avail_in,
+            avail_out: s.avail_out,
+            total_in: s.total_in as u64,
+            total_out: s.total_out as u64,
+            adler: s.adler as u64,
+            data_type: s.data_type,
+        }
+    }
+    fn set_dict(&mut self, d: *const u8, n: usize) -> c_int {
+        unsafe { A::inflateSetDictionary(&mut *self.strm, d, n as u32) }
+    }
+    fn get_header(&mut self, h: *mut gz_header) -> c_int {
+        unsafe { A::inflateGetHeader(&mut *self.strm, h) }
+    }
+    fn totals(&self) -> (u64, u64, u64) {
+        (self.strm.total_in as u64, self.strm.total_out as u64, self.strm.adler as u64)
+    }
+    fn msg(&self) -> Option<String> {
+        if self.strm.msg.is_null() {
+            None
+        } else {
+            Some(unsafe { std::ffi::CStr::from_ptr(self.strm.msg) }.to_string_lossy().into_owned())
+        }
+    }
+    fn end(mut self) -> c_int {
+        unsafe { A::inflateEnd(&mut *self.strm) }
+    }
+}
+
+/// the safe Rust wrapper `zlib_rs::Inflate`
+pub struct RustApi {
+    pub inf: zlib_rs::Inflate,
+    last_dict_id: u64,
+}
+
+fn flush_of(f: c_int) -> zlib_rs::InflateFlush {
+    match f {
+        Z_SYNC_FLUSH => zlib_rs::InflateFlush::SyncFlush,
+        Z_FINISH => zlib_rs::InflateFlush::Finish,
+        Z_BLOCK => zlib_rs::InflateFlush::Block,
+        Z_TREES => zlib_rs::InflateFlush::Trees,
+        _ => zlib_rs::InflateFlush::NoFlush,
+    }
+}
+
+impl InfBack for RustApi {
+    const LABEL: &'static str = "zlib_rs::Inflate";
+    fn init(wbits: c_int) -> Result<Self, c_int> {
+        let (hdr, w) = if wbits < 0 { (false, (-wbits) as u8) } else { (true, wbits as u8) };
+        match std::panic::catch_unwind(|| zlib_rs::Inflate::new(hdr, w)) {
+            Ok(inf) => Ok(RustApi { inf, last_dict_id: 0 }),
+            Err(_) => Err(RC_PANIC),
+        }
+    }
+    fn call(&mut self, ip: *const u8, ic: usize, op: *mut u8, oc: usize, flush: c_int) -> CallOut {
+        let input = unsafe { core::slice::from_raw_parts(ip, ic) };
+        let output = unsafe { core::slice::from_raw_parts_mut(op, oc) };
+        let ti = self.inf.total_in();
+        let to = self.inf.total_out();
+        let inf = &mut self.inf;
+        let r = std::panic::catch_unwind(std::panic::AssertUnwindSafe(|| inf.decompress(input, output, flush_of(flush))));
+        let rc = match r {
+            Err(_) => RC_PANIC,
+            Ok(Ok(zlib_rs::Status::Ok)) => Z_OK,
+            Ok(Ok(zlib_rs::Status::BufError)) => Z_BUF_ERROR,
+            Ok(Ok(zlib_rs::Status::StreamEnd)) => Z_STREAM_END,
+            Ok(Err(zlib_rs::InflateError::NeedDict { dict_id })) => {
+                self.last_dict_id = dict_id as u64;
+                Z_NEED_DICT
+            }
+            Ok(Err(zlib_rs::InflateError::StreamError)) => Z_STREAM_ERROR,
+            Ok(Err(zlib_rs::InflateError::DataError)) => Z_DATA_ERROR,
+            Ok(Err(zlib_rs::InflateError::MemError)) => Z_MEM_ERROR,
+        };
+        let din = (self.inf.total_in() - ti) as isize;
+        let dout = (self.inf.total_out() - to) as isize;
+        CallOut {
+            rc,
+            din_ptr: din,
+            dout_ptr: dout,
+            avail_in: (ic as isize - din).max(0) as u32,
+            avail_out: (oc as isize - dout).max(0) as u32,
+            total_in: self.inf.total_in(),
+            total_out: self.inf.total_out(),
+            adler: self.last_dict_id,
+            data_type: 0,
+        }
+    }
+    fn set_dict(&mut self, d: *const u8, n: usize) -> c_int {
+        let dict = unsafe { core::slice::from_raw_parts(d, n) };
+        match self.inf.set_dictionary(dict) {
+            Ok(_) => Z_OK,
+            Err(zlib_rs::InflateError::DataError) => Z_DATA_ERROR,
+            Err(_) => Z_STREAM_ERROR,
+        }
+    }
+    fn totals(&self) -> (u64, u64, u64) {
+        (self.inf.total_in(), self.inf.total_out(), 0)
+    }
+    fn msg(&self) -> Option<String> {
+        self.inf.error_message().map(|s| s.to_string())
+    }
+    fn end(self) -> c_int {
+        Z_OK
+    }
+}
+
 pub fn run_inflate<A: Z>(data: &[u8], sched: &InfSchedule, o: &InfOpts, ar: &Arenas) -> InfRun {
+    run_inflate_with::<CApi<A>>(data, sched, o, ar)
+}
+
+/// Drive one inflate session over `data` following `sched`.
+pub fn run_inflate_with<B: InfBack>(data: &[u8], sched: &InfSchedule, o: &InfOpts, ar: &Arenas) -> InfRun {
     let mut run = InfRun {
         init_rc: 0,
         out: Vec::new(),
@@ -193,14 +359,15 @@ pub fn run_inflate<A: Z>(data: &[u8], sched: &InfSchedule, o: &InfOpts, ar: &Are
         final_adler: 0,
         msg: None,
     };
-    let mut strm = zs();
-    let rc = unsafe { A::inflateInit2(&mut strm, o.wbits) };
-    run.init_rc = rc;
-    if rc != Z_OK {
-        run.status = Status::StreamError;
-        run.last_rc = rc;
-        return run;
-    }
+    let mut be = match B::init(o.wbits) {
+        Ok(b) => b,
+        Err(rc) => {
+            run.init_rc = rc;
+            run.status = Status::StreamError;
+            run.last_rc = rc;
+            return run;
+        }
+    };
     let mut head_store: Option<Box<gz_header>> = None;
     if let Some(c) = &o.capture {
         let mut h = Box::new(gz_header::default());
@@ -221,7 +388,7 @@ pub fn run_inflate<A: Z>(data: &[u8], sched: &InfSchedule, o: &InfOpts, ar: &Are
             c.arenas[2].fill(0xEE);
         }
         h.done = 77;
-        let rc = unsafe { A::inflateGetHeader(&mut strm, &mut *h) };
+        let rc = be.get_header(&mut *h);
         run.head = Some(HeadResult { head: copy_head(&h), extra: vec![], name: vec![], comment: vec![], done_trace: vec![], get_header_rc: rc, extra_ptr_set: false, name_ptr_set: false, comm_ptr_set: false });
         head_store = Some(h);
     }
@@ -261,16 +428,13 @@ pub fn run_inflate<A: Z>(data: &[u8], sched: &InfSchedule, o: &InfOpts, ar: &Are
                 core::ptr::write_bytes(op.add(oc), 0xC7, 32);
             }
         }
-        strm.next_in = ip;
-        strm.avail_in = ic as u32;
-        strm.next_out = op;
-        strm.avail_out = oc as u32;
-        let rc = unsafe { A::inflate(&mut strm, flush) };
+        let strm = be.call(ip, ic, op, oc, flush);
+        let rc = strm.rc;
         run.ncalls += 1;
         run.last_rc = rc;
         // --- accounting (C15) -------------------------------------------------------------
-        let din_ptr = (strm.next_in as usize).wrapping_sub(ip as usize);
-        let dout_ptr = (strm.next_out as usize).wrapping_sub(op as usize);
+        let din_ptr = strm.din_ptr as usize;
+        let dout_ptr = strm.dout_ptr as usize;
         let din_av = (ic as u32).wrapping_sub(strm.avail_in);
         let dout_av = (oc as u32).wrapping_sub(strm.avail_out);
         let bad_in = strm.avail_in as usize > ic || din_ptr != din_av as usize;
@@ -315,6 +479,11 @@ pub fn run_inflate<A: Z>(data: &[u8], sched: &InfSchedule, o: &InfOpts, ar: &Are
         // --- return code domain (C02) ---------------------------------------------------------
         match rc {
             Z_OK | Z_STREAM_END | Z_NEED_DICT | Z_DATA_ERROR | Z_BUF_ERROR | Z_MEM_ERROR => {}
+            RC_PANIC => {
+                viol(&mut run, "C02", "inflate/panic", format!("call {{}}: {} panicked", B::LABEL));
+                run.status = Status::StreamError;
+                break;
+            }
             _ => {
                 viol(&mut run, "C02", "inflate/undocumented-status", format!("call {{}}: inflate returned {} ({})", rc, rc_name(rc)));
             }
@@ -351,7 +520,7 @@ pub fn run_inflate<A: Z>(data: &[u8], sched: &InfSchedule, o: &InfOpts, ar: &Are
                 run.need_dict_adler = Some(strm.adler as u64);
                 if let Some(d) = o.dict {
                     let dp = ar.dict.put_right(d);
-                    let r = unsafe { A::inflateSetDictionary(&mut strm, dp, d.len() as u32) };
+                    let r = be.set_dict(dp, d.len());
                     run.dict_rc = Some(r);
                     if r != Z_OK {
                         run.status = if r == Z_DATA_ERROR { Status::DataError } else { Status::StreamError };
@@ -359,8 +528,9 @@ pub fn run_inflate<A: Z>(data: &[u8], sched: &InfSchedule, o: &InfOpts, ar: &Are
                         break;
                     }
                     // totals are unspecified right after NEED_DICT (C16 note); resync
-                    prev_total_in = strm.total_in as u64;
-                    prev_total_out = strm.total_out as u64;
+                    let (ti, to, _) = be.totals();
+                    prev_total_in = ti;
+                    prev_total_out = to;
                     continue;
                 }
                 run.status = Status::NeedDict;
@@ -385,12 +555,11 @@ pub fn run_inflate<A: Z>(data: &[u8], sched: &InfSchedule, o: &InfOpts, ar: &Are
             }
         }
     }
-    run.total_in = strm.total_in as u64;
-    run.total_out = strm.total_out as u64;
-    run.final_adler = strm.adler as u64;
-    if !strm.msg.is_null() {
-        run.msg = Some(unsafe { std::ffi::CStr::from_ptr(strm.msg) }.to_string_lossy().into_owned());
-    }
+    let (ti, to, ad) = be.totals();
+    run.total_in = ti;
+    run.total_out = to;
+    run.final_adler = ad;
+    run.msg = be.msg();
     if let (Some(h), Some(hr), Some(c)) = (&head_store, &mut run.head, &o.capture) {
         hr.head = copy_head(h);
         hr.extra_ptr_set = !h.extra.is_null();
@@ -406,7 +575,7 @@ pub fn run_inflate<A: Z>(data: &[u8], sched: &InfSchedule, o: &InfOpts, ar: &Are
             hr.comment = unsafe { core::slice::from_raw_parts(c.arenas[2].right(m as usize), m as usize) }.to_vec();
         }
     }
-    let erc = unsafe { A::inflateEnd(&mut strm) };
+    let erc = be.end();
     if erc != Z_OK {
         viol(&mut run, "C02", "inflateEnd/status", format!("inflateEnd returned {}", erc));
     }
